@@ -154,7 +154,7 @@ theorem pathsL_sticky (L : Limits) (env : PEnv) (orc : EvalOracles) (input : Byt
         intro x
         split
         · exact All.bind_of_forall _ fun _ => ih _ rfl
-        · refine All.bind ((walkL_sticky L env orc b.expr 64 _ _ ?_).mono fun r hr => All.bind_of_forall _ fun _ => ih _ hr)
+        · refine All.bind ((walkL_sticky L env orc b.expr _ _ _ ?_).mono fun r hr => All.bind_of_forall _ fun _ => ih _ hr)
           split <;> exact h
       · apply All.bind_of_forall
         intro o
@@ -214,7 +214,7 @@ theorem pathsL_psim (env : PEnv) (orc : EvalOracles) (L L' : Limits) (input : By
       · refine PSim.ofUnit (IsUnit.spool input) (fun x => ?_) fun x hx => ?_
         · split
           · exact PSim.bind_same _ fun _ => ih _
-          · refine PSim.bind (walkL_psim env orc L L' b.expr 64 _ _) (fun r => PSim.bind_same _ fun _ => ih _) fun r hr => ?_
+          · refine PSim.bind (walkL_psim env orc L L' b.expr _ _ _) (fun r => PSim.bind_same _ fun _ => ih _) fun r hr => ?_
             exact All.bind_of_forall _ fun _ => pathsL_sticky L env orc input b more _ hr
         · simp only [hx, if_true]
           exact All.bind_of_forall _ fun _ => pathsL_sticky L env orc input b more _ rfl
